@@ -26,6 +26,15 @@ SEM_NOTE = "Bounded model; conformance is sampling of executions steered by the 
 CHECKS["C03"] = dict(cat="model_checking", tech="TLC model checking of LpmImpl.tla (rearranger range points + predecessor search, CDB prefix-length sets vs longest-prefix match on toy address spaces) + TLC-enumerated subnet sets embedded in the real address space and run through the real compilers/readers + TLC trace validation of every lookup against Lpm.tla (ResolveTrace)",
     text="Both lookup algorithms are model-checked equal to longest-prefix match for every set of <=3-4 subnets and every client prefix on three toy spaces in which a block plays the IPv4-mapped range; every enumerated set (plus name-to-map layouts and random realistic sets) is compiled with the real compilers and looked up through the real readers on CDB (combined and per-family sets) and RocksDB v1/v2, resolver and ECS paths, and TLC judges each observed (location, mask, map) against the property-level LPM on the real addresses.",
     note=SEM_NOTE + " Toy spaces of 4-5 address bits; IPv6 subnets containing the IPv4-mapped block are a labelled class (known finding F3b).", ref="4.4")
+CHECKS["C01"] = dict(cat="model_checking", tech="TLC model checking of ResolveGen.tla (the oracle Resolve.tla accepts the ideal response and rejects its mutations on every file of a bounded universe) + TLC-enumerated data files rendered, compiled by the real compilers and served by the real handlers + TLC trace validation of every response against Resolve.tla (ResolveTrace)",
+    text="The property is written as an executable TLA+ oracle (meaning of the 16 line types, locations, zone cuts, wildcards, NXDOMAIN/NODATA/referral/REFUSED); TLC proves it satisfiable and discriminating on a bounded universe and enumerates that universe; every enumerated file and seeded random worlds are compiled to CDB, RocksDB v1 and v2 by the real compilers and every query of the grid is judged by TLC against the oracle.",
+    note=SEM_NOTE + " Universe: one zone, 27 candidate lines, K<=2-3 on the skeleton; random worlds cover the remaining line types and options.", ref="4.2")
+CHECKS["C02"] = dict(cat="model_checking", tech="TLC model checking of Reader.tla (closest-key search over sorted v2 keys incl. context cache == label-by-label search, request level) + TLC-enumerated databases and random worlds compiled three ways (and with other compiler options) + TLC pairwise comparison and oracle judgement of all responses (ResolveTrace)",
+    text="The v2 closest-key search is model-checked observationally equal to the label walk for every database of <=2-3 entries over a universe built to exercise SeekForPrev neighbourhoods (label lengths, locations, wildcard, zone cut, HTTPS); every enumerated database and random worlds are compiled to CDB / RocksDB v1 / v2 (sample: builder/batches, workers, batch size) and all responses are compared pairwise and judged by the oracle.",
+    note=SEM_NOTE, ref="4.3")
+CHECKS["C04"] = dict(cat="model_checking", tech="TLC model checking of the non-interference theorem on Resolve.tla (ResolveGen NonInterference) + metamorphic replay on the real servers (foreign-location / unrelated-map edits, tag erasure) + TLC comparison of the paired responses (ResolveTrace memo)",
+    text="Non-interference is an invariant of the oracle checked on every file of the bounded universe; on the real servers every query of a client in L is asked on a file and on its edit (records of other locations or unrelated maps added/removed/changed; own view re-written untagged) and TLC requires identical responses on CDB, RocksDB v1 and v2.",
+    note=SEM_NOTE, ref="4.6")
 NA = {}
 props = [json.loads(l)["id"] for l in open(os.path.join(V, "properties.jsonl"))]
 m = {
